@@ -5,8 +5,11 @@ package mimetype
 import (
 	"bytes"
 	"fmt"
+	"mime"
+	"os"
 	"strconv"
 	"strings"
+	"syscall"
 )
 
 // heap ops: the pointer structure mime.go builds (newMIME, Extend, match/cloneHierarchy, lookup,
@@ -196,6 +199,64 @@ func vfExecMore17(f []string, op string) (string, bool) {
 			return op + " => BADSCRIPT", true
 		}
 		return fmt.Sprintf("%s => %s", op, vfHeapRun(f[1])), true
+	case "isx": // isx namehex shex : Is on any string, judged with the real mime.ParseMediaType as normaliser
+		m := Lookup(string(vfUnhex(f[1])))
+		if m == nil {
+			return op + " => NOLOOKUP", true
+		}
+		sx := string(vfUnhex(f[2]))
+		norm, _, _ := mime.ParseMediaType(sx)
+		return fmt.Sprintf("%s => %s%s %s", op, vfBit(m.Is(sx)), vfBit(EqualsAny(sx, string(vfUnhex(f[1])))), vfHexOrDash([]byte(norm))), true
+	case "eqanyx": // eqanyx shex thex
+		a, b := string(vfUnhex(f[1])), string(vfUnhex(f[2]))
+		na, _, _ := mime.ParseMediaType(a)
+		nb, _, _ := mime.ParseMediaType(b)
+		return fmt.Sprintf("%s => %s %s %s", op, vfBit(EqualsAny(a, b)), vfHexOrDash([]byte(na)), vfHexOrDash([]byte(nb))), true
+	case "bigslice": // bigslice lim extra hex : Detect on a slice of 2^32+extra bytes (content, then zeros), limit > 0
+		lim64, _ := strconv.ParseUint(f[1], 10, 32)
+		extra, _ := strconv.Atoi(f[2])
+		content := vfUnhex(f[3])
+		if lim64 == 0 || extra < 0 {
+			return op + " => BADARGS", true
+		}
+		size := (1 << 32) + extra
+		mem, err := syscall.Mmap(-1, 0, size, syscall.PROT_READ|syscall.PROT_WRITE, syscall.MAP_PRIVATE|syscall.MAP_ANON|syscall.MAP_NORESERVE)
+		if err != nil {
+			return op + " => NOMAP", true
+		}
+		defer syscall.Munmap(mem)
+		copy(mem, content)
+		SetLimit(uint32(lim64))
+		m := Detect(mem)
+		hdr := make([]byte, lim64) // what the first `limit` bytes of that slice are
+		copy(hdr, content)
+		d := Detect(hdr)
+		return fmt.Sprintf("%s => %s %s", op, vfRes(m), vfRes(d)), true
+	case "bigfile": // bigfile lim extra hex : DetectFile on a sparse file of 2^32+extra bytes, limit > 0
+		lim64, _ := strconv.ParseUint(f[1], 10, 32)
+		extra, _ := strconv.Atoi(f[2])
+		content := vfUnhex(f[3])
+		if lim64 == 0 || extra < 0 {
+			return op + " => BADARGS", true
+		}
+		tf, err := os.CreateTemp("", "vf-big-*")
+		if err != nil {
+			return op + " => NOTEMP", true
+		}
+		name := tf.Name()
+		defer os.Remove(name)
+		tf.Write(content)
+		if err := tf.Truncate((1 << 32) + int64(extra)); err != nil {
+			tf.Close()
+			return op + " => NOTEMP", true
+		}
+		tf.Close()
+		SetLimit(uint32(lim64))
+		m, derr := DetectFile(name)
+		hdr := make([]byte, lim64)
+		copy(hdr, content)
+		d := Detect(hdr)
+		return fmt.Sprintf("%s => %s %s %s", op, vfErrClass(derr), vfRes(m), vfRes(d)), true
 	case "realheap": // realheap script : the registered tree after the Extend script, as a heap (ids: pre-order)
 		if vfBuiltin == nil {
 			vfBuiltin = vfSnapshot()
@@ -320,8 +381,74 @@ func (g *vfGen) genRealHeap() {
 	}
 }
 
+func vfHexOrDash(b []byte) string {
+	if len(b) == 0 {
+		return "-"
+	}
+	return vfHex(b)
+}
+
+// Is / EqualsAny on strings outside ASCII (Unicode case folding, letters that lower-case to ASCII,
+// full-width forms) and on very long decorated strings
+func (g *vfGen) genIsX() {
+	mu.RLock()
+	var names []string
+	for _, n := range root.flatten() {
+		names = append(names, n.mime)
+		names = append(names, n.aliases...)
+	}
+	mu.RUnlock()
+	fold := map[byte]string{'s': "\u017f", 'k': "\u212a", 'i': "\u0130", 'a': "\uff41", 'e': "\u00e9", 'o': "\u03bf", 'c': "\u0441", 'x': "\u00d7"}
+	for _, n := range names {
+		b := []byte(n)
+		var idx []int
+		for i, c := range b {
+			if _, ok := fold[c]; ok {
+				idx = append(idx, i)
+			}
+		}
+		for r := 0; r < 3 && len(idx) > 0; r++ {
+			i := idx[g.intn(len(idx))]
+			v := n[:i] + fold[n[i]] + n[i+1:]
+			g.emit(vfOp("isx", []byte(n), []byte(v)))
+			g.emit(vfOp("eqanyx", []byte(v), []byte(n)))
+			if g.intn(2) == 0 {
+				g.emit(vfOp("isx", []byte(n), []byte(v+"; charset=utf-8")))
+				g.emit(vfOp("isx", []byte(n), []byte(strings.ToUpper(v))))
+			}
+		}
+		// long but well-formed: parameters and white space far beyond any sensible name length
+		long := n + "; " + strings.Repeat("p", 40+g.intn(300)) + "=" + strings.Repeat("v", 40+g.intn(300))
+		g.emit(vfOp("isx", []byte(n), []byte(long)))
+		g.emit(vfOp("eqanyx", []byte(long), []byte(n)))
+		g.emit(vfOp("eqanyx", []byte(n), []byte(long)))
+		g.emit(vfOp("isx", []byte(n), []byte(strings.Repeat(" ", 100+g.intn(300))+n+strings.Repeat("\t", g.intn(300)))))
+		g.emit(vfOp("isx", []byte(n), []byte(n+"\u00a0")))
+		g.emit(vfOp("isx", []byte(n), []byte(n+"; x=\"\u00e9\"")))
+	}
+}
+
+// inputs of 4 GiB and more: lengths and sizes that do not fit 32 bits (sparse: nothing large is
+// written or read; limit > 0 throughout)
+func (g *vfGen) genBig() {
+	svg := []byte("<?xml version=\"1.0\"?><!-- " + strings.Repeat("c", 120) + " --><svg xmlns=\"http://www.w3.org/2000/svg\"></svg>")
+	for _, extra := range []int{5, 100, 3071, 0, 70000} {
+		for _, lim := range []int{3072, 16, 65536} {
+			g.emit(vfOp("bigslice", lim, extra, []byte("hello")))
+			g.emit(vfOp("bigslice", lim, extra, svg))
+			g.emit(vfOp("bigfile", lim, extra, []byte("hello")))
+			g.emit(vfOp("bigfile", lim, extra, svg))
+			g.emit(vfOp("bigfile", lim, extra, append([]byte("%PDF-1.7\n"), g.textBytes(200)...)))
+		}
+	}
+}
+
 func (g *vfGen) runMore17(slice string) bool {
 	switch slice {
+	case "big":
+		g.genBig()
+	case "isx":
+		g.genIsX()
 	case "heap":
 		g.genHeap()
 		g.genRealHeap()
